@@ -349,9 +349,14 @@ func keyCode(k vaxis.Key) int {
 	if k.Keycode >= 'a' && k.Keycode <= 'z' && k.Modifiers == 0 {
 		return int(k.Keycode - 'a')
 	}
+	// the inverse of decodeKey on CSI p0;p1 R for the rows the generator uses (1..19):
+	// row 1 is F3, row 8 (the BS code point) is KeyBackspace, any other row is its own rune
 	p0 := int(k.Keycode)
-	if k.Keycode == vaxis.KeyF03 {
+	switch k.Keycode {
+	case vaxis.KeyF03:
 		p0 = 1
+	case vaxis.KeyBackspace:
+		p0 = 8
 	}
 	return 100000 + p0*256 + int(k.Modifiers) + 1
 }
